@@ -73,7 +73,7 @@ ATOMIC = [
     ("perf_array", 2),
     ("num_tracks", 2),
     ("save_match", 2),
-    ("save_match_file", 2),
+    ("save_match_file", 5),
     ("na_slice", 3),
     ("na_pianoroll", 2),
     ("na_estimate", 2),
@@ -165,7 +165,7 @@ def generate(seed, tier, cfg):
         "perf_seed": st.workload.randrange(1 << 30) if has_perf else None,
         "programs": programs,
         "schedule": sched.gen_schedule(st.schedule, nclients, nsteps, policy),
-        "knobs": {"policy": policy, "reclimit": k.choice((1000, 1500, 3000)), "profile": profile, "chunk": k.choice((0, 0, 7, 16, 512)), "musical_beat": [i for i in range(nparts) if k.random() < 0.3]},
+        "knobs": {"policy": policy, "reclimit": k.choice((1000, 1500, 3000)), "profile": profile, "chunk": k.choice((0, 0, 7, 16, 512)), "musical_beat": [i for i in range(nparts) if k.random() < 0.5]},
     }
 
 
